@@ -362,4 +362,8 @@ def run(ctx):
             res.check(all(norm(c.args[0]) == newl for c in adds), "D-REWIRE", f, norm(adds[0]), "adds-new", "the replacement list is not what gets added", loc(v.fi, adds[0]))
     res.discovery["random_shuffle_seed"] = "random_shuffle seeds numpy.random but also draws from the stdlib `random` module (indices_to_replace): outside C14's claims (same-seed reproducibility is claimed for random_hypergraph / random_uniform_hypergraph only)"
     res.assumptions += ["random.sample / numpy.random.choice(replace=False) return distinct elements (library)", "counts per size and distinctness of hyperedges are not decided"]
+    with res.guard("general lint pack over the property's files"):
+        from ..lints import check_pack
+
+        check_pack(ctx, res, "C14")
     return res
